@@ -52,9 +52,10 @@ type ExecCfg struct {
 	PermSites     bool     `json:"perm_sites"`
 	PermListings  bool     `json:"perm_listings"`
 	SharedDeps    bool     `json:"shared_deps"`
-	ListGenerated bool     `json:"list_generated,omitempty"`   // the file source also lists (and serves) the committed *.j5s.proto outputs next to their sources
-	RealReader    bool     `json:"real_file_reader,omitempty"` // real protobuild.fileReader over an in-memory fs.FS (no read faults)
-	OutHandling   uint64   `json:"out_handling,omitempty"`     // 0: returned files are serialised and printed once, in order. Otherwise seeded: order, print-before-serialise (bit 0), everything twice (bit 1), re-examine held results at the end (bit 2)
+	ListGenerated bool     `json:"list_generated,omitempty"`      // the file source also lists (and serves) the committed *.j5s.proto outputs next to their sources
+	RealReader    bool     `json:"real_file_reader,omitempty"`    // real protobuild.fileReader over an in-memory fs.FS (no read faults)
+	RealDeps      bool     `json:"real_dependency_set,omitempty"` // the real internal/source.imageFiles (its map ranges are seeded by pass M) instead of the in-memory stand-in
+	OutHandling   uint64   `json:"out_handling,omitempty"`        // 0: returned files are serialised and printed once, in order. Otherwise seeded: order, print-before-serialise (bit 0), everything twice (bit 1), re-examine held results at the end (bit 2)
 	Ops           []Op     `json:"ops"`
 	MaskSites     []string `json:"mask_sites,omitempty"`     // sites forced to identity order
 	MaskDecisions []string `json:"mask_decisions,omitempty"` // individual decisions (site, collection content) forced to identity order
@@ -252,7 +253,7 @@ type FileOut struct {
 type psState struct {
 	ps     *protobuild.PackageSet
 	src    *memSource // nil when the real file reader is used
-	deps   *memDeps
+	deps   protobuild.DependencySet
 	faulty bool // a fault was injected on this PackageSet
 	linted bool // LoadLocalPackage / LintAll / LintFile ran on this PackageSet
 }
@@ -519,9 +520,24 @@ func runExec(p *Program, ref Reference, cfg ExecCfg, stats *Stats) (*Violation, 
 		simrt.StopClock()
 	}()
 	ctx := context.Background()
-	var sharedDeps *memDeps
+	mkDeps := func() protobuild.DependencySet {
+		if cfg.RealDeps && simrt.RealDependencySet != nil {
+			var files []*descriptorpb.FileDescriptorProto
+			for _, f := range p.Deps {
+				files = append(files, proto.Clone(f).(*descriptorpb.FileDescriptorProto))
+			}
+			if d, err := simrt.RealDependencySet(files); err == nil {
+				if stats != nil {
+					stats.Probes["real_dependency_sets"]++
+				}
+				return d
+			}
+		}
+		return newMemDeps(p, ex)
+	}
+	var sharedDeps protobuild.DependencySet
 	if cfg.SharedDeps {
-		sharedDeps = newMemDeps(p, ex)
+		sharedDeps = mkDeps()
 	}
 	sets := map[int]*psState{}
 	getPS := func(i int) (*psState, error) {
@@ -544,7 +560,7 @@ func runExec(p *Program, ref Reference, cfg ExecCfg, stats *Stats) (*Violation, 
 		}
 		deps := sharedDeps
 		if deps == nil {
-			deps = newMemDeps(p, ex)
+			deps = mkDeps()
 		}
 		var lfs protobuild.LocalFileSource = src
 		if cfg.RealReader {
@@ -827,6 +843,7 @@ func genExecCfg(p *Program, seed uint64) ExecCfg {
 	}
 	cfg.SharedDeps = rng.Bool(0.3)
 	cfg.RealReader = rng.Bool(0.2)
+	cfg.RealDeps = len(p.Deps) > 0 && rng.Bool(0.3)
 	cfg.ListGenerated = !cfg.RealReader && rng.Bool(0.2)
 	cfg.Ops = genOps(p, cfg.Mode, rng)
 	if rng.Bool(0.4) {
